@@ -799,6 +799,12 @@ def elem_detach(ex, er):
 
 def compare(ex, op, a, b):
     a, b = plain(a), plain(b)
+    for x in (a, b):
+        if isinstance(x, Sym):
+            from .values import ext_kind
+
+            if ext_kind(x.k) is not None:
+                return ext_kind(x.k).compare(ex, op, a, b)
     if isinstance(a, Unknown) or isinstance(b, Unknown):
         if isinstance(op, (ast.Is, ast.IsNot)) and (a is None or b is None):
             pass
